@@ -658,7 +658,11 @@ impl<BE: Backend + CKKSImpl<BE>> CKKSDotProductOps<BE> for Module<BE> {
         let lhr0: usize = checked_mul_ct_log_budget("dot_product_ct", a_min_lhr, b_min_lhr, a_ld, b_ld)?;
         let res_offset: usize = (lhr0 + res_log_delta).saturating_sub(dst_max_k);
         let res_log_budget: usize = checked_log_budget_sub("dot_product_ct", lhr0, res_offset)?;
-        let cnv_offset: usize = a_target_eff_k.max(b_target_eff_k) + res_offset;
+        // Same shift as `get_mul_ct_params`: the products sit at 2^-(a_min_lhr + b_min_lhr) and the result is declared at
+        // log_budget = min(log_budget) - max(log_delta). max(effective_k) equals this only when the side with the larger
+        // log_budget also has the larger log_delta; otherwise the result decrypted to the dot product divided by a
+        // power of two.
+        let cnv_offset: usize = a_min_lhr.max(b_min_lhr) + a_ld.max(b_ld) + res_offset;
 
         let tensor_max_k: usize = a_target_eff_k.max(b_target_eff_k);
         let tensor_layout = GLWELayout {
